@@ -1,6 +1,8 @@
 import Casket.Proofs.VHost
 import Casket.Proofs.VHostStack
 import Casket.Generated.VHost
+import Casket.Spec.VHostAuto
+import Casket.Proofs.AutoHTTPSSites
 /-
 C01 — Virtual-host routing picks the most specific site, or none.
 
@@ -255,6 +257,87 @@ theorem C01_stack_duplicate_route_key_witness :
     let addrs : List Casket.AutoHTTPS.Bytes := [b!"http://a.com:8080/foo", b!"https://a.com:8080/foo"]
     Casket.VHostStack.stackRoute addrs b!"8080" ⟨[97, 46, 99, 111, 109], [47, 102, 111, 111], 1⟩ = .site 1 [47, 102, 111, 111] ∧
     Casket.VHostStackSpec.verdict addrs b!"8080" ⟨[97, 46, 99, 111, 109], [47, 102, 111, 111], 1⟩ (.site 1 [47, 102, 111, 111]) ≠ "ok" := by
+  decide
+
+/-! ### bind, tls and the synthesised redirect sites (stream c01.auto) -/
+
+/-- when the c01.auto model serves a request, the outcome is the C01 `route` over the sites of the listener -/
+theorem C01_auto_served_is_route {blocks : List Casket.VHostAuto.Block} {lbind lport : Casket.AutoHTTPS.Bytes} {r : Req}
+    {n : Nat} {ms : List Casket.VHostAuto.Member} {o : Outcome}
+    (h : Casket.VHostAuto.autoRoute blocks lbind lport r = .served n ms o) :
+    o = route (ms.map Casket.VHostAuto.Member.site) r := by
+  unfold Casket.VHostAuto.autoRoute at h
+  cases hi : Casket.AutoHTTPS.inspect (blocks.map (·.addr)) with
+  | error e => rw [hi] at h; cases h
+  | ok as =>
+    rw [hi] at h
+    simp only [] at h
+    unfold Casket.VHostAuto.afterLoad at h
+    split at h
+    · cases h
+    · split at h
+      · cases h
+      · unfold Casket.VHostAuto.serveListener at h
+        split at h
+        · cases h
+        · unfold Casket.VHostAuto.serveGroup at h
+          split at h
+          · cases h
+          · cases h; rfl
+
+/-- The c01.auto judge: for every Casketfile of (address, bind, tls) blocks, every listener and every request
+the model's answer gets the verdict "ok", provided the sites the model puts on that listener — declared and
+synthesised — have pairwise different routing addresses.  `_partial`: the hypothesis fails for the two known
+findings (C01-scheme-only-duplicate, C01-managed-port-duplicate: see the witness below). -/
+theorem C01_auto_model_verdict_ok_partial (blocks : List Casket.VHostAuto.Block) (lbind lport : Casket.AutoHTTPS.Bytes) (r : Req)
+    (hdistinct : ∀ n ms o, Casket.VHostAuto.autoRoute blocks lbind lport r = .served n ms o →
+      Casket.VHostStackSpec.hasDuplicateRouteKey (entries (ms.map Casket.VHostAuto.Member.site)) = false) :
+    Casket.VHostAutoSpec.verdict blocks r (Casket.VHostAuto.autoRoute blocks lbind lport r) = "ok" := by
+  unfold Casket.VHostAutoSpec.verdict
+  split
+  · rfl
+  · cases h : Casket.VHostAuto.autoRoute blocks lbind lport r with
+    | served n ms o =>
+      simp only [hdistinct n ms o h, Bool.false_eq_true, if_false]
+      rw [C01_auto_served_is_route h]
+      exact C01_model_verdict_ok _ r
+    | _ => rfl
+
+/-- A synthesised redirect site never stands beside a declared site of its host on the HTTP port — WHATEVER the
+`bind` values of the two sites are (`hostHasOtherPort` compares host and port only): in the model no declared
+plain-HTTP site can be shadowed by a redirect site, however the interface it is bound to is spelled. -/
+theorem C01_auto_no_redirect_beside_declared_http_site (e : List Casket.AutoHTTPS.Site) (s : Casket.AutoHTTPS.Site)
+    (hs : s ∈ Casket.AutoHTTPS.makePlaintextRedirects e) :
+    s ∈ e ∨ (s.port = Casket.AutoHTTPS.Ports.std.http ∧
+      ∀ d ∈ e, ¬(d.host = s.host ∧ d.port = Casket.AutoHTTPS.Ports.std.http)) := by
+  unfold Casket.AutoHTTPS.makePlaintextRedirects at hs
+  rw [Casket.AutoHTTPS.makePlaintextRedirects_eq, List.mem_append] at hs
+  rcases hs with hs | hs
+  · exact Or.inl hs
+  · obtain ⟨k, c, _, _, _, hrc, hno⟩ :=
+      (Casket.AutoHTTPS.inv_final Casket.AutoHTTPS.Ports.std_ok e).sound s hs
+    subst hrc
+    exact Or.inr ⟨rfl, hno⟩
+
+/-- the seeded configuration in the model: `https://a.com { bind 127.0.0.1; tls self_signed }` and
+`http://a.com { bind ::ffff:127.0.0.1 }` share the listener 127.0.0.1:80, which holds the declared HTTP site only,
+and that site serves `a.com/foo` -/
+theorem C01_auto_bind_spelling_example :
+    Casket.VHostAuto.autoRoute
+      [{ addr := b!"https://a.com", bind := b!"127.0.0.1", tls := { base := .selfSigned } },
+       { addr := b!"http://a.com", bind := b!"::ffff:127.0.0.1" }]
+      b!"127.0.0.1" b!"80" ⟨[97, 46, 99, 111, 109], [47, 102, 111, 111], 1⟩
+    = .served 2 [⟨1, [104, 116, 116, 112, 58, 47, 47, 97, 46, 99, 111, 109], [97, 46, 99, 111, 109]⟩] (.site 0 [47]) := by
+  decide
+
+set_option maxRecDepth 20000 in
+/-- What `_partial` excludes is real: `a.com { tls admin@verif.test }` is moved to the HTTPS port after the duplicate
+checks; beside `a.com:443` it shares the :443 listener and the routing address (`a.com`, `/`). -/
+theorem C01_auto_managed_port_duplicate_witness :
+    let blocks : List Casket.VHostAuto.Block :=
+      [{ addr := b!"a.com", tls := { base := .email } }, { addr := b!"a.com:443" }]
+    let r : Req := ⟨[97, 46, 99, 111, 109], [47], 1⟩
+    Casket.VHostAutoSpec.verdict blocks r (Casket.VHostAuto.autoRoute blocks [] b!"443" r) ≠ "ok" := by
   decide
 
 /-- The catch-all hosts of the model are the ones in the source
